@@ -469,6 +469,7 @@ func memBuild(name string, docs []*DocSpec, per int, cfg bluge.Config, scoreOK b
 			return nil, err
 		}
 	}
+	settleWriter(w) // no merge runs while the build is searched
 	rd, err := w.Reader()
 	if err != nil {
 		_ = w.Close()
@@ -484,6 +485,10 @@ type diffStats struct {
 // differential compares build A (readers given) with canonical builds of the
 // abstract index's live documents.
 func (r *Run) differential(tag string, A *build, withRecipes bool) {
+	r.s.withoutSelectGates(func() { r.differential1(tag, A, withRecipes) })
+}
+
+func (r *Run) differential1(tag string, A *build, withRecipes bool) {
 	docs := append([]*DocSpec(nil), r.chain.Current().Live...)
 	t := r.t
 	if r.diffQueries == nil {
